@@ -57,6 +57,7 @@ func Run(o *drv.Out) {
 	corpusLastCertVersion(o)
 	corpusParamCache(o)
 	corpusSlashReexecuted(o)
+	corpusCheckpointHeight(o)
 	for ci := 0; ci < nCases; ci++ {
 		runCase(o, ci, nHeights, bigSends)
 	}
@@ -472,6 +473,72 @@ func corpusSlashReexecuted(o *drv.Out) {
 	}
 	o.Nontrivial(o.CurCase())
 	o.Sample("slashing-block-re-executed-after-reset: the slashing block executed twice with a Reset in between (proposer mempool, validate/interrupt/validate, validate/interrupt/replay) == executed once")
+}
+
+// corpusCheckpointHeight: heights 1..101 (201 in the thorough tier) on four paths. Every 100th height
+// the certificate results carry a checkpoint (height, block hash) that the leader must take from the
+// final header hash of its two-step proposal build (see harness/c11 corpusCheckpointHeight); 99 and
+// 101 are the controls.
+func corpusCheckpointHeight(o *drv.Out) {
+	o.Case("checkpoint-height")
+	rng := rand.New(rand.NewSource(53))
+	net := node.NewNetwork(14, 4, nil, 8)
+	defer net.Close()
+	c := execdrv.NewChain(o, net, rng, []int{16, 3})
+	P, V, R, S := c.NewNode("P", 0), c.NewNode("V", 1), c.NewNode("R", -1), c.NewNode("S", -1)
+	last := uint64(101)
+	if o.Tier == "thorough" || o.Search {
+		last = 201
+	}
+	for P.Height() <= last {
+		h := P.Height()
+		var txs []node.MixTx
+		if h%10 == 0 || h%100 == 99 || h%100 == 1 {
+			txs = append(txs, node.MixTx{Kind: "send", Bytes: net.SendTx(net.AcctKeys[int(h)%8], net.FreshAddr(int(h)), 1000, 10000, h, "")})
+		}
+		pre := P.StateDigest()
+		p, ok := c.Propose(P, txs, "produce")
+		if !ok {
+			o.Fail("C03:proposer-failed", "ProduceProposal failed", map[string]any{"case": o.CurCase(), "height": h})
+			return
+		}
+		suffix := ""
+		if h%100 == 0 {
+			suffix = ":checkpoint-height"
+		}
+		fail := func(path, got, want string) {
+			o.Fail("C03:path-divergence:propose-"+path+suffix, fmt.Sprintf("height %d: path %q gives %q, the proposer's header/results/state are %q", h, path, got, want), replayInfo(o, c, h, p, path))
+		}
+		c.Hold = true
+		okP := c.Validate(P, p)
+		resP := ""
+		if okP {
+			resP = c.Commit(P, p, false)
+		}
+		post := P.StateDigest()
+		o.Op(fmt.Sprintf("def %d %s %s %s %s", h, pre, p.ID, post, p.Obs), "def")
+		c.Release()
+		want := fmt.Sprintf("ok state=%s obs=%s", post, p.Obs)
+		if !okP || resP != want {
+			fail("validate", fmt.Sprintf("the proposer validates its own proposal: %v, commit %q", okP, resP), want)
+			return
+		}
+		if !c.Validate(V, p) {
+			fail("validate", "rejected", want)
+			return
+		}
+		for _, x := range []struct{ path, got string }{{"validate+commit-cached", c.Commit(V, p, false)}, {"commit-replay", c.Commit(R, p, false)}, {"sync", c.Commit(S, p, true)}} {
+			o.Count("compared")
+			if x.got != want {
+				fail(x.path, x.got, want)
+				return
+			}
+		}
+		if h%100 == 0 {
+			o.Count(fmt.Sprintf("checkpoint-height:%d:all-paths-agree", h))
+		}
+	}
+	o.Nontrivial(o.CurCase())
 }
 
 // step is one height of the chain as the proposer saw it.
